@@ -1135,6 +1135,18 @@ def execute(plan):
             if writes0[errname[-1]]["sent"] != d.abort_state["sent"]:
                 raise OracleFailure("C06.abort", "error snapshot does not hold the state at the failure", {"what": "error-state", "hook": abort0["hook"]})
             check_file(path, writes0, "life0-aborted", False, cs, rd.get("loads", 1), rd.get("pick", 0), abort_state=d.abort_state)
+            if rd.get("postLoad") and any(len(nm) == 6 for nm in writes0):
+                # the analyst looks into the crashed run's file through the interface's own database
+                # object: what is in the file, and the mark that the run did not complete, stay
+                plain0 = sorted(nm for nm in writes0 if len(nm) == 6)
+                c_, n_ = _group_time(plain0[rd.get("pick", 0) % len(plain0)])
+                try:
+                    with o.getInterface("database").database as db_:
+                        db_.load(c_, n_, cs=cs, allowMissing=True)
+                except Exception as e:  # noqa: BLE001 - judged by what is left of the file
+                    log.add("postload-raised", type(e).__name__)
+                probes["file_of_an_aborted_run_looked_into_through_the_interface"] += 1
+                check_file(path, writes0, "life0-aborted-after-a-look", False, cs, 1, rd.get("pick", 0), abort_state=d.abort_state)
         else:
             # outside the window the abort clause is not asserted; the file, if any, must open
             if os.path.exists(path):
